@@ -15,7 +15,7 @@ SPLITTERS = {"line": (LINE_ALPHABET, LINE_ALPHABET_SMALL), "char": (LINE_ALPHABE
              "symbol": (SYMBOL_ALPHABET + [b"DDBEGIN\n", b"DDEND\n"], SYMBOL_ALPHABET[:7] + [b"a"]),
              "jsstr": (JS_ALPHABET + [b"DDBEGIN\n", b"DDEND\n"], JS_ALPHABET[:7]),
              "attrs": (ATTR_ALPHABET + [b"DDBEGIN\n", b"DDEND\n"], ATTR_ALPHABET[:8])}
-MODELLED = ("line", "char", "symbol")
+MODELLED = ("line", "char", "symbol", "jsstr", "attrs")
 
 
 def run(ck: Check, only=None):
